@@ -31,6 +31,11 @@ C = {
    "End-to-end differential: generated regexes/flags/option values travel through option serialisation (map order is a simulator decision), base64, stream segmentation down to "
    "1 byte and the server's re-assembly; the delivered lines must equal a reference grep applied to the pattern compiled directly by the harness, and the output mode must be the one requested.",
    "deterministic simulation: seeded request generation x stream segmentation x map-order decisions, direct-compile differential oracle"),
+ "C04": ("exploration", "5 C04",
+   "Seeded simulation of dtail follows: a simulated writer appends tagged lines in write() calls of arbitrary size and spacing (fake clock: 100 ms polling, 3 s truncation check), "
+   "consumer pacing and schedules vary; the follow start is read from /proc/self/fdinfo; oracle: appended lines exactly once, in order, unmodified, old content never, "
+   "losses only with a < 100 % indication and never when the session selected fewer than 100 lines.",
+   "deterministic simulation: simulated writer task + fake clock + consumer stalls, tail reference model"),
 }
 
 checks = []
